@@ -107,6 +107,8 @@ pub struct Ctx {
     pub panic_props: Vec<&'static str>,
     /// (property, signature) of deviations observed while no fault was in play
     pub baseline: HashSet<(&'static str, String)>,
+    /// number of calls to `violation` (including repeats of a known signature)
+    pub total_reports: u64,
 }
 
 impl Ctx {
@@ -139,6 +141,7 @@ impl Ctx {
             can_skip: true,
             panic_props: Vec::new(),
             baseline: HashSet::new(),
+            total_reports: 0,
         }
     }
 
@@ -190,6 +193,7 @@ impl Ctx {
     }
 
     pub fn violation(&mut self, prop: &'static str, sig: String, detail: String) {
+        self.total_reports += 1;
         // follow-up operations after an injected fault: a deviation refutes the fault property
         // Deviations of follow-up operations after an injected fault refute the fault property -
         // unless the very same deviation (same property, same structural signature) has also been
